@@ -10,6 +10,7 @@ import (
 	"strconv"
 	"strings"
 	"sync"
+	"time"
 
 	"github.com/256dpi/gomqtt/packet"
 
@@ -23,10 +24,13 @@ type Event struct {
 	Kind string // e.g. "bsend" (broker-side Send), "brecv", "psend" (peer wrote), "precv", "hook:Publish:call"
 	Pkt  packet.Generic
 	Note string
+	// At is the time since the first event of the log. It is shown in witness
+	// logs for the reader; no oracle reads it.
+	At time.Duration
 }
 
 func (e Event) String() string {
-	s := fmt.Sprintf("%d %s %s", e.Seq, e.Who, e.Kind)
+	s := fmt.Sprintf("%d +%.3fms %s %s", e.Seq, float64(e.At)/1e6, e.Who, e.Kind)
 	if e.Pkt != nil {
 		s += " " + ref.Canon(e.Pkt)
 	}
@@ -41,6 +45,7 @@ type Log struct {
 	mu     sync.Mutex
 	seq    int64
 	events []Event
+	t0     time.Time
 }
 
 // Add appends an event and returns its sequence number.
@@ -49,7 +54,11 @@ func (l *Log) Add(who, kind string, pkt packet.Generic, note string) int64 {
 	l.mu.Lock()
 	l.seq++
 	s := l.seq
-	l.events = append(l.events, Event{Seq: s, Who: who, Kind: kind, Pkt: pkt, Note: note})
+	now := time.Now()
+	if l.t0.IsZero() {
+		l.t0 = now
+	}
+	l.events = append(l.events, Event{Seq: s, Who: who, Kind: kind, Pkt: pkt, Note: note, At: now.Sub(l.t0)})
 	l.mu.Unlock()
 	return s
 }
